@@ -9,12 +9,13 @@ N = "Type3Tag.NDEF."
 _A = lambda *ks: [("attributes['%s']" % k, k, INT) for k in ks]      # noqa: E731  the attribute dict as parameters
 
 SPECS = [
-    Spec(GROUP, "t3_attr_decode", F, N + "_read_attribute_data", [("data", BYTES)], stmts=(1, 8),
+    Spec(GROUP, "t3_attr_decode", F, N + "_read_attribute_data", [("data", OPT(BYTES))], stmts=(1, 9),
          drop=["self._attribute_error ="], stores=["self._capacity", "self._writeable", "self._readable"],
          result=["ver", "nbr", "nbw", "nmaxb", "writef", "rwflag", "length",
                  "self._capacity", "self._writeable", "self._readable"],
          ret=OPT(TUP(INT, INT, INT, INT, INT, INT, INT, INT, BOOL, BOOL)),
-         note="cut: behind the read of block 0 (`data`), up to the flags; result: None (checksum error) or "
+         note="cut: behind the read of block 0 (`data`, None: the block could not be verified), up to the flags; "
+              "result: None (unverified block, checksum error) or "
               "(ver, nbr, nbw, nmaxb, writef, rwflag, ln, capacity, writeable, readable)"),
     Spec(GROUP, "t3_attr_encode", F, N + "_write_attribute_data", [], stmts=(1, 10), result=["attribute_data"],
          binds=_A("ver", "nbr", "nbw", "nmaxb", "writef", "rwflag", "ln"),
@@ -54,7 +55,7 @@ SPECS = [
 ]
 BRIDGE = {"module": "NfcVerif.Props.FnBridgeT3",
           "theorems": ["NfcVerif.FnBridge.T3." + t for t in (
-              "attr_decode_bridge", "attr_encode_bridge", "read_plan_bridge", "readNdef3_plan", "parseAttr_eq",
+              "attr_decode_bridge", "attr_decode_none", "attr_encode_bridge", "read_plan_bridge", "readNdef3_plan", "parseAttr_eq",
               "read_batch_end_bridge", "write_plan_bridge", "write_batch_bridge",
               "process_bridge", "process_command_bridge")],
           "properties": ["C01", "C02", "C03", "C08", "C07"]}
@@ -79,6 +80,7 @@ def inputs(rng, sp):
         for _ in range(250):
             d = _attr_block(rng)
             out.append(([d if rng.random() < 0.9 else d[:rng.randrange(0, 16)]], []))
+        out.append(([None], []))
     if sp.lean == "t3_attr_encode":
         for _ in range(150):
             v = [rng.choice([0, 0x10, 255, rng.randrange(256)]) for _ in range(3)] + \
@@ -135,6 +137,7 @@ def inputs(rng, sp):
 
 
 MUTATIONS = [
+    ("t3_attr_decode", "unverified block not rejected", "if data is None:", "if data is None and len(self._tag.idm) == 0:"),
     ("t3_attr_decode", "checksum range", "sum(data[0:14])", "sum(data[0:13])"),
     ("t3_attr_decode", "checksum position", 'unpack(">H", data[14:16])', 'unpack(">H", data[13:15])'),
     ("t3_attr_decode", "checksum byte order", 'unpack(">H", data[14:16])', 'unpack("<H", data[14:16])'),
